@@ -20,16 +20,24 @@ def host_files(work, seed):
     return out
 
 
-def populate_script(hf, r, fill_bytes, nfiles=40, xattrs=True, special=True, sparse=True, filler=0, ndirs=0):
+import hashlib as _h
+_SELF = _h.sha256(open(__file__, 'rb').read()).hexdigest()[:12]      # a change of the population script invalidates cached images
+
+
+def populate_script(hf, r, fill_bytes, nfiles=40, xattrs=True, special=True, sparse=True, filler=0, ndirs=0, ea_high=0):
     """debugfs commands creating directories (one large enough for an htree), regular files up to
     fill_bytes in total, a fragmented/sparse file, symlinks, hard links, special files, xattrs"""
     cmds = ["mkdir d1", "mkdir d1/sub", "mkdir big", "mkdir empty", "mkdir d1/sub/x", "mkdir d1/sub/y"]
     late = []
+    names = []
     for i in range(nfiles):
-        c = "write %s big/f_%03d_%s" % (hf["tiny"] if i % 7 == 0 and not filler else "/dev/null", i, "n" * r.randint(0, 30))
+        names.append("big/f_%03d_%s" % (i, "n" * r.randint(0, 30)))
+        c = "write %s %s" % (hf["tiny"] if i % 7 == 0 and not filler else "/dev/null", names[-1])
         (late if filler else cmds).append(c)
     if filler:
         late += ["symlink big/sl_%02d /t%d" % (i, i) for i in range(8)]
+        # small directories (inline with inline_data): an early one that names late inodes, and a late one
+        late[0:0] = ["write /dev/null d1/sub/x/late_file", "symlink d1/sub/x/late_link /y", "mkdir d1/late", "write %s d1/late/a" % hf["tiny"], "write /dev/null d1/late/b"]
     used = 0
     i = 0
     sizes = {"small": 600, "mid": 30000, "big": 400000, "huge": 2500000}
@@ -49,12 +57,19 @@ def populate_script(hf, r, fill_bytes, nfiles=40, xattrs=True, special=True, spa
     cmds += ["write %s d1/sub/deep" % hf["small"], "symlink d1/fast /short", "symlink d1/slow /" + "L" * 150, "link d1/plain d1/hardlink"]
     if special:
         cmds += ["mknod d1/fifo p", "mknod d1/chr c 4 5", "mknod d1/blk b 8 1"]
+    if ea_high and not filler:
+        # the low block groups are full while the attribute blocks are allocated: files with low inode numbers own
+        # attribute blocks far up the device (a shrink has to move the block, not the inode)
+        cmds += ["write /dev/null blockfill", "fallocate blockfill 0 %d" % ea_high]
     if xattrs:
         cmds += ["ea_set d1/plain user.big %s" % ("v" * 200), "ea_set d1 user.k v", "ea_set d1/sub/deep user.a 1"]
         # attributes large enough for an external block on inodes that own no data blocks
         cmds += ["ea_set d1/fast user.onlink %s" % ("s" * 300)]
         if special:
             cmds += ["ea_set d1/fifo user.onfifo %s" % ("f" * 300), "ea_set d1/chr user.onchr %s" % ("c" * 300)]
+    if ea_high and not filler:
+        cmds += ["ea_set %s user.high%d %s" % (nm, i, chr(65 + i % 26) * (150 + 7 * i)) for i, nm in enumerate(names[:14])]
+        cmds.append("rm blockfill")
     for i in range(ndirs):
         cmds.append("mkdir many_%04d" % i)
     if filler:
@@ -86,6 +101,10 @@ def make_fs(src, path, opts, size, seed, fill=0.3, nfiles=40, populate=True, che
         if ff:
             import extfmt
             kw["filler"] = min(int(extfmt.Fs(path).inodes_count * ff), 6000)
+        eh = kw.pop("ea_high_fraction", 0)
+        if eh:
+            import extfmt
+            kw["ea_high"] = int(extfmt.Fs(path).blocks_count * eh)
         cmds = populate_script(hf, r, int(nbytes * fill), nfiles=nfiles, **kw)
         rc, out = e2v.sh([T("debugfs/debugfs"), "-w", "-f", "-", path], input=("\n".join(cmds) + "\n").encode(), env=env, timeout=600)
         # debugfs 'link' leaves the link count to e2fsck (documented); normalise once
@@ -104,7 +123,7 @@ def cached_fs(src, work, name, opts, size, seed, **kw):
     img = os.path.join(work, "base_%s_%s_%d.img" % (name, size, seed))
     with e2v.Lock(img + ".lock"):
         keyf = img + ".key"
-        k = open(os.path.join(e2v.SCRATCH, "std", "KEY")).read() + repr(sorted(kw.items())) + repr(opts)
+        k = open(os.path.join(e2v.SCRATCH, "std", "KEY")).read() + repr(sorted(kw.items())) + repr(opts) + _SELF
         if os.path.exists(img) and os.path.exists(keyf) and open(keyf).read() == k:
             return img
         ok, msg = make_fs(src, img, opts, size, seed, **kw)
